@@ -285,7 +285,8 @@ Print Assumptions C10_rejected_index_file_leaves_registry.
    well-formed state (no NULL group, no crash so far, every named group owned by a defined variable):
    (1) no NULL pointer is dereferenced and the state stays well-formed; the variables, biases, named groups and index
        groups that existed are still there unchanged; every variable that was active is still active;
-   (2) the same for any session of configurations and resets;
+   (2) the same for any session of configurations, resets and deletions of biases or variables through the scripting
+       interface (two holders of one variable or of one named group, then one deleted);
    (3) a configuration rejected in parse_global_params changes no object, no named group, no counter and no active
        variable; what it leaves behind, legitimately, is the groups of those of its index files that were ACCEPTED
        and the values of those module-level keywords that could be read.
